@@ -34,8 +34,14 @@ def job(j):
                 c["exc"] = f"{type(e).__name__}: {e}"
         else:
             c["gin"] = ser.ser_gates(qc.gates)
+            from qlasskit import _verif
+            events = []
+            _verif.set_sink(lambda ev, f: events.append((ev, f)))
             try:
-                o = circuit_boolean_optimizer(qc)
+                try:
+                    o = circuit_boolean_optimizer(qc)
+                finally:
+                    _verif.set_sink(None)
                 c["gout"] = ser.ser_gates(o.gates)
                 c["nq_out"] = int(o.num_qubits)
             except Exception as e:
@@ -43,6 +49,12 @@ def job(j):
                 c["nq_out"] = nq
                 c["exc"] = f"{type(e).__name__}: {e}"
             c["gin_after"] = ser.ser_gates(qc.gates)
+            secs = [f for ev, f in events if ev == "do.section"]
+            c["hooked"] = any(ev == "do.begin" for ev, f in events)
+            c["secs"] = [{"s": int(f["index"][0]), "e": int(f["index"][1]), "ngates": int(f["ngates"]), "secq": [int(q) for q in f["secq"]],
+                          "raised": bool(f["raised"]), "new": ser.ser_gates(f["new"]), "used": [int(q) for q in f["used"]],
+                          "qmap": dict({str(k): int(v) for k, v in f["qmap"].items()}, __pad__=0),
+                          "qmapnew": dict({str(k): int(v) for k, v in f["qmapnew"].items()}, __pad__=0)} for f in secs]
         out.append(c)
     return out
 
@@ -124,7 +136,7 @@ def run(pid):
             for c in cases:
                 v = verdicts[c["id"]]
                 vst[v[0]] = vst.get(v[0], 0) + 1
-                if pid == "C11" and v[0] == "ok":
+                if v[0] == "ok":
                     conf[v[1]] = conf.get(v[1], 0) + 1
                 if v[0] == "ok" and v[2] > 0:
                     nontriv += 1
@@ -143,7 +155,7 @@ def run(pid):
                     if pid == "C11" else
                     "one case = one gate string built as a real circuit and optimised; non-trivial = the optimiser removed at least one gate; unitaries compared exactly on every basis state by TLC (spec/QSim.tla)"),
            "generator_states": gst, "verdicts": vst, "failing_clauses": clauses,
-           "refinement": {"scanner_model_vs_real": conf, "model_checking": mc}}
+           "refinement": {("scanner_model_vs_real" if pid == "C11" else "decopt_model_vs_real"): conf, "model_checking": mc}}
     vac = None if vst.get("ok", 0) >= 200 and nontriv >= 50 else f"ok={vst.get('ok', 0)} nontrivial={nontriv}"
     return rep.finish(cov, T0.s(), assumptions=["spec/Circuit.tla, spec/BoolSem.tla, spec/QSim.tla (contract layer)"], vacuity=vac)
 
